@@ -18,6 +18,7 @@ def _own(C, name):
 
 
 def check(ctx):
+    accepts_all_queued(ctx)
     ctx.rule("T4-ixes", "writers of .ixes / .cxes")
     ctx.rule("T1-replace", "ixes[k] = v preceded by: if k in ixes and ixes[k] is not v: shutdownIx(k)")
     ctx.rule("T2-remove", "removeIx(shutclose=True): entry.shutclose() on every such path, then del")
@@ -162,3 +163,33 @@ def check(ctx):
     entries = [S.methods[m] for m in ("serviceAxes", "removeIx", "shutdownIx", "closeIx", "closeAllIx", "serviceConnects")] + \
         [T.methods[m] for m in ("serviceAxes", "serviceCxes", "serviceConnects")]
     defect_scope(ctx, "D-scope", entries, max_depth=1, floor=9, label="scope: Server/ServerTls connection table functions")
+
+
+def accepts_all_queued(ctx):
+    """every connection the listening socket hands over reaches the table: Acceptor.serviceAccepts queues each accepted (cs, ca)
+    on .axes unconditionally, and Server / ServerTls take that method as it is (the stale-entry rule is applied later, in
+    serviceAxes, where old and new meet)"""
+    from ..rules import path_condition, formula_implies_f, formula_of
+    ctx.rule("T6-accepts", "Acceptor.serviceAccepts: axes.append((cs, ca)) for every truthy cs; Server/ServerTls do not override it")
+    A = ctx.cls("tcp.serving", "Acceptor")
+    f = A.own_method("serviceAccepts")
+    V = FuncView(ctx, f)
+    ap = V.need(V.calls("self.axes.append"), "self.axes.append in Acceptor.serviceAccepts")
+    acc = V.need(V.call_nodes("self.accept"), "self.accept() in Acceptor.serviceAccepts")
+    ok = len(ap) == 1
+    if ok:
+        n, c = ap[0]
+        a = V.sym(c.args[0], n) if c.args else None
+        ok = isinstance(a, ast.Tuple) and len(a.elts) == 2
+        pc = path_condition(V, n, start=[b for b, _ in V.cfg.succ[acc[0].id]])
+        # nothing but the "no more connections" test stands between accept() and the queue
+        ok = ok and formula_implies_f(formula_of("cs"), pc)
+    ctx.check(ok, "T6-accepts", f, "every accepted connection is queued on .axes",
+              "a connection that is accepted and then dropped (address already in the table, any other filter) never reaches "
+              "serviceAxes: the stale entry for its address stays in the table and is never shut down, the new connection is lost")
+    for cn in ("Server", "ServerTls"):
+        C = ctx.cls("tcp.serving", cn)
+        for m in ("serviceAccepts", "accept"):
+            ctx.check(not _own(C, m), "T6-accepts", C.node, "%s inherits Acceptor.%s" % (cn, m),
+                      "an override of the accept path in the server class needs its own proof that every accepted connection "
+                      "reaches the table")
